@@ -3,8 +3,8 @@ Lemmas for the codec group Basic (`Model/Codec/Basic.lean`):
 * primitive round trips (`leDecode (leEncode w n) = n`, …) and the predicate `Parses p enc a`
   ("`p` consumes exactly `enc`, whatever follows, and yields `a`") with its bind rule;
 * `NoPanic p` (C10) and its closure lemmas;
-* the fuel loop `loop`: `Incr`, `NoPanic`, fuel irrelevance and monotonicity, and the rule that turns
-  a fuel-indexed family of `Incr` decoders into an `Incr` decoder that takes the input length as fuel.
+* the fuel loop `loop`: `Incr`, `NoPanic`, and `loop_fuel_enough` (the fuel is never exhausted when a
+  measure decreases in every round).
 -/
 import Dblib.Model.Codec.Basic
 import Dblib.Lemmas.Parser
@@ -217,179 +217,33 @@ theorem np_loop {σ : Type} (cond : σ → Bool) (body : σ → P σ) (hb : ∀ 
     · rw [loop_succ_pos f hc]; exact np_bind (hb st) (fun a => ih a)
     · rw [loop_succ_neg f hc]; exact np_pure _
 
-/-- a fuel-indexed decoder whose answer does not depend on the fuel once the fuel covers the input,
-and whose successes persist when fuel is added -/
-structure FuelOK {α : Type} (D : Nat → P α) : Prop where
-  irrel : ∀ f1 f2 s, s.length ≤ f1 → s.length ≤ f2 → D f1 s = D f2 s
-  mono : ∀ f f' s a n, D f s = .ok a n → f ≤ f' → D f' s = .ok a n
-
-/-- a body that reads first and consumes at least one byte per successful round -/
-structure Progress {σ : Type} (body : σ → P σ) : Prop where
-  empty : ∀ st, body st [] = .notEnough
-  step : ∀ st s st' k, body st s = .ok st' k → 1 ≤ k
-
-theorem loop_nil {σ : Type} (cond : σ → Bool) (body : σ → P σ) (hp : Progress body) (f : Nat) (st : σ) :
-    loop cond body f st [] = loop cond body 0 st [] := by
-  cases f with
-  | zero => rfl
-  | succ f =>
-    by_cases hc : cond st = true
-    · rw [loop_succ_pos f hc, loop_zero_pos hc]
-      simp [Bind.bind, P.bind, hp.empty, short]
-    · rw [loop_succ_neg f hc, loop_zero_neg hc]
-
-theorem loop_fuel_irrel {σ : Type} (cond : σ → Bool) (body : σ → P σ) (hp : Progress body)
-    (f1 f2 : Nat) (st : σ) (s : Bytes) (h1 : s.length ≤ f1) (h2 : s.length ≤ f2) :
-    loop cond body f1 st s = loop cond body f2 st s := by
-  induction f1 generalizing f2 st s with
-  | zero =>
-    have hs : s = [] := List.eq_nil_of_length_eq_zero (by omega)
-    subst hs
-    exact (loop_nil cond body hp f2 st).symm
-  | succ f1 ih =>
-    cases f2 with
-    | zero =>
-      have hs : s = [] := List.eq_nil_of_length_eq_zero (by omega)
-      subst hs
-      exact loop_nil cond body hp (f1 + 1) st
-    | succ f2 =>
-      by_cases hc : cond st = true
-      · rw [loop_succ_pos f1 hc, loop_succ_pos f2 hc]
-        simp only [Bind.bind, P.bind]
-        cases hb : body st s with
-        | notEnough => rfl
-        | err e => rfl
-        | panic => rfl
-        | ok st' k =>
-          have hk := hp.step st s st' k hb
-          have hne : s ≠ [] := by
-            intro hs; subst hs; rw [hp.empty] at hb; cases hb
-          have hlen : 0 < s.length := List.length_pos_iff.mpr hne
-          have hd : (s.drop k).length ≤ s.length - 1 := by simp [List.length_drop]; omega
-          simp only []
-          rw [ih f2 st' (s.drop k) (by omega) (by omega)]
-      · rw [loop_succ_neg f1 hc, loop_succ_neg f2 hc]
-
-theorem loop_fuel_mono {σ : Type} (cond : σ → Bool) (body : σ → P σ)
-    (f f' : Nat) (st : σ) (s : Bytes) (a : σ) (n : Nat)
-    (h : loop cond body f st s = .ok a n) (hf : f ≤ f') : loop cond body f' st s = .ok a n := by
-  induction f generalizing f' st s n with
+/-- **The fuel is never exhausted** when a measure `μ` that is positive while the loop condition
+holds decreases in every successful round: from `μ st ≤ f` on, more fuel gives the same answer. -/
+theorem loop_fuel_enough {σ : Type} (cond : σ → Bool) (body : σ → P σ) (μ : σ → Nat)
+    (hpos : ∀ st, cond st = true → 0 < μ st)
+    (hdec : ∀ st s st' k, cond st = true → body st s = .ok st' k → μ st' < μ st)
+    (f : Nat) (st : σ) (s : Bytes) (hf : μ st ≤ f) :
+    loop cond body (f + 1) st s = loop cond body f st s := by
+  induction f generalizing st s with
   | zero =>
     by_cases hc : cond st = true
-    · rw [loop_zero_pos hc] at h; cases h
-    · rw [loop_zero_neg hc] at h
-      cases f' with
-      | zero => rw [loop_zero_neg hc]; exact h
-      | succ f' => rw [loop_succ_neg f' hc]; exact h
+    · have := hpos st hc; omega
+    · rw [loop_succ_neg 0 hc, loop_zero_neg hc]
   | succ f ih =>
-    cases f' with
-    | zero => omega
-    | succ f' =>
-      by_cases hc : cond st = true
-      · rw [loop_succ_pos f hc] at h
-        rw [loop_succ_pos f' hc]
-        simp only [Bind.bind, P.bind] at h ⊢
-        cases hb : body st s with
-        | notEnough => simp [hb] at h
-        | err e => simp [hb] at h
-        | panic => simp [hb] at h
-        | ok st' k =>
-          simp only [hb] at h ⊢
-          cases hl : loop cond body f st' (s.drop k) with
-          | notEnough => simp [hl] at h
-          | err e => simp [hl] at h
-          | panic => simp [hl] at h
-          | ok b m =>
-            simp only [hl, Res.ok.injEq] at h
-            obtain ⟨hba, hkm⟩ := h
-            subst hba
-            rw [ih f' st' (s.drop k) m hl (by omega)]
-            simp [hkm]
-      · rw [loop_succ_neg f hc] at h
-        rw [loop_succ_neg f' hc]; exact h
+    by_cases hc : cond st = true
+    · rw [loop_succ_pos (f + 1) hc, loop_succ_pos f hc]
+      simp only [Bind.bind, P.bind]
+      cases hb : body st s with
+      | notEnough => rfl
+      | err e => rfl
+      | panic => rfl
+      | ok st' k =>
+        have := hdec st s st' k hc hb
+        simp only []
+        rw [ih st' (s.drop k) (by omega)]
+    · rw [loop_succ_neg (f + 1) hc, loop_succ_neg f hc]
 
-theorem fuelOK_loop {σ : Type} (cond : σ → Bool) (body : σ → P σ) (hp : Progress body) (st : σ) :
-    FuelOK (fun f => loop cond body f st) :=
-  ⟨fun f1 f2 s h1 h2 => loop_fuel_irrel cond body hp f1 f2 st s h1 h2,
-   fun f f' s a n h hf => loop_fuel_mono cond body f f' st s a n h hf⟩
-
-/-- a fuel-independent prefix before a `FuelOK` family -/
-theorem fuelOK_bind_left {α β : Type} (p : P α) (E : Nat → α → P β)
-    (hE : ∀ x, FuelOK (fun f => E f x)) : FuelOK (fun f => p >>= E f) := by
-  constructor
-  · intro f1 f2 s h1 h2
-    simp only [Bind.bind, P.bind]
-    cases hps : p s with
-    | notEnough => rfl
-    | err e => rfl
-    | panic => rfl
-    | ok a n =>
-      have hd : (s.drop n).length ≤ s.length := by simp [List.length_drop]
-      simp only []
-      rw [(hE a).irrel f1 f2 (s.drop n) (by omega) (by omega)]
-  · intro f f' s b nm h hf
-    simp only [Bind.bind, P.bind] at h ⊢
-    cases hps : p s with
-    | notEnough => simp [hps] at h
-    | err e => simp [hps] at h
-    | panic => simp [hps] at h
-    | ok a n =>
-      simp only [hps] at h ⊢
-      cases hl : E f a (s.drop n) with
-      | notEnough => simp [hl] at h
-      | err e => simp [hl] at h
-      | panic => simp [hl] at h
-      | ok b' m =>
-        rw [(hE a).mono f f' (s.drop n) b' m hl hf]
-        simpa [hl] using h
-
-/-- a fuel-independent continuation after a `FuelOK` family -/
-theorem fuelOK_bind_right {α β : Type} (D : Nat → P α) (g : α → P β) (hD : FuelOK D) :
-    FuelOK (fun f => D f >>= g) := by
-  constructor
-  · intro f1 f2 s h1 h2
-    simp only [Bind.bind, P.bind]
-    rw [hD.irrel f1 f2 s h1 h2]
-  · intro f f' s b nm h hf
-    simp only [Bind.bind, P.bind] at h ⊢
-    cases hps : D f s with
-    | notEnough => simp [hps] at h
-    | err e => simp [hps] at h
-    | panic => simp [hps] at h
-    | ok a n =>
-      rw [hD.mono f f' s a n hps hf]
-      simpa [hps] using h
-
-/-- taking the length of the input as fuel preserves `Incr` -/
-theorem incr_of_fuel {α : Type} (D : Nat → P α) (hI : ∀ f, Incr (D f)) (hF : FuelOK D) :
-    Incr (fun s => D s.length s) := by
-  intro s a n h
-  obtain ⟨hn, stab, short⟩ := hI s.length s a n h
-  refine ⟨hn, ?_, ?_⟩
-  · intro t
-    -- shrink the fuel to `n` on the exact prefix, then grow it again
-    have h0 : D s.length (s.take n) = .ok a n := by simpa using stab []
-    have hlen : (s.take n).length = n := by simp [List.length_take]; omega
-    have h1 : D n (s.take n) = .ok a n := by
-      rw [← h0]; exact hF.irrel n s.length (s.take n) (by omega) (by omega)
-    obtain ⟨_, stab1, _⟩ := hI n (s.take n) a n h1
-    have h2 : D n (s.take n ++ t) = .ok a n := by
-      have := stab1 t
-      rwa [List.take_take, Nat.min_self] at this
-    have : (s.take n ++ t).length = n + t.length := by simp [hlen]
-    show D (s.take n ++ t).length (s.take n ++ t) = .ok a n
-    rw [this]
-    exact hF.mono n (n + t.length) _ a n h2 (by omega)
-  · intro k hk
-    have hlen : (s.take k).length = k := by simp [List.length_take]; omega
-    show D (s.take k).length (s.take k) = .notEnough
-    rw [hF.irrel (s.take k).length s.length (s.take k) (by omega) (by omega)]
-    exact short k hk
-
-theorem np_of_fuel {α : Type} (D : Nat → P α) (hN : ∀ f, NoPanic (D f)) :
-    NoPanic (fun s => D s.length s) := fun s => hN s.length s
-
-/-! ### inversion of `bind`, progress of the loop bodies -/
+/-! ### inversion of `bind` -/
 
 theorem bind_ok_inv {α β : Type} {p : P α} {f : α → P β} {s : Bytes} {b : β} {k : Nat}
     (h : (p >>= f) s = .ok b k) :
